@@ -36,6 +36,7 @@ class Effects:
         self._mut = None
         self._ret_alias = None
         self._deep = {}
+        self._deep_sites = {}
 
     # ------------------------------------------------------------------ events
     def events(self, q: str) -> list:
@@ -70,6 +71,29 @@ class Effects:
         for e in s.events:
             if all(not self.p.funcs[fr.callee].is_property for fr in e.ctx if fr.callee in self.p.funcs):
                 out.append(e)
+        return out
+
+    def deep_sites(self, callee: str) -> list:
+        """[(entry qname, call event)]: the calls of `callee` as seen from the documented entry points that reach it
+        (stage methods and anchors), with every helper in between expanded - the guard of the event is then the whole
+        condition under which the entry point gets there."""
+        from .anchors import ANCHORS, PUBLIC_CLASSES
+        if callee in self._deep_sites:
+            return self._deep_sites[callee]
+        entries = [q for q in self.summ if (q in ANCHORS or (
+            self.p.funcs[q].cls is not None and self.p.funcs[q].cls.qname in PUBLIC_CLASSES
+            and not self.p.funcs[q].name.startswith('_') and not self.p.funcs[q].is_property)) and q != callee]
+        out, seen = [], set()
+        for q in sorted(entries):
+            if callee not in self.reachable([q], include_possible=False):
+                continue
+            for e in self.deep_events(q):
+                if e.kind == 'call' and tag(e.call) == 'call' and e.call[1] == ('g', callee):
+                    key = (id(e.node), T.key(e.guard))
+                    if key not in seen:
+                        seen.add(key)
+                        out.append((q, e))
+        self._deep_sites[callee] = out
         return out
 
     def deep_loops(self, q: str, binding=None) -> dict:
